@@ -46,6 +46,10 @@ Domain : as C01 (vf.pipeline configurations: Colang 1.0 / 2.x, dialog rails on/o
          the text is part of a generated flow - C17's subject).
          Colang 2.x route `par` (configuration key "ext": "c02-par", dialog True): `vf llm reply and vf llm reply` - two
          LLM texts obtained and said IN PARALLEL (and-group).  Generated only when PARALLEL_ROUTE is on (see there).
+         Turn kinds: a turn is started by an ordinary user message, by an EMPTY user message ("user": "", every configuration) or - Colang
+         1.0, configuration key "ext" containing "ev" (c02-ev, c02-ms+ev, c02-act+ev, c02-ms+act+ev) - by an EVENT message of the caller
+         (turn key `start_event`, routes ev_llm / ev_custom / ev_pl / ev_predef, see EV_ROUTES): the first turn of a conversation (no
+         user turn before it) or a later one.  The LLM text of such a turn is checked material like that of any other turn.
 Oracle : reference model of the output chain (vf.pipeline.model_output) per LLM-generated text, memoryless over
          turns (= the history invariant: the chain of turn t is a function of turn t's verdicts only), checked on
          the rail-action trace and on the returned reply:
@@ -124,6 +128,21 @@ RULE = (
     "token family x 4 Colang 1.0 configurations (general mode, routes llm / pl / lp / act_var / next_llm) + 2 Colang 2.x controls. Labels "
     "llm-text-with-dollar-token:<planted-context-variable|run-time-context-key|unknown-name|not-an-identifier>:<passed|rewritten|rejected>, "
     ":place-<p>, :repeated-from-earlier-turn, context-variables-planted-by-caller. "
+    "Turn kinds (how a turn is started): ordinary user message / EMPTY user message (the empty string; both Colang versions, every "
+    "configuration; a third of the conversations - half of those with the shipped self check output rail - have two thirds of their "
+    "user turns empty) / EVENT-STARTED (Colang 1.0 with a generated dialog, not passthrough, conversations without generation options: "
+    "half of the configurations get four flows started by an event message of the caller - UserSilent -> LLM message, custom event with "
+    "a parameter -> LLM message, custom event -> predefined + LLM message, custom event -> predefined message only as control; turn key "
+    "start_event, routes ev_llm / ev_custom / ev_pl / ev_predef; in half of those conversations the FIRST turn is event-started, i.e. "
+    "before any user turn, later turns draw the routes like any other). The LLM text of such a turn is owed to every output rail like any "
+    "other. Enumerated FIRST (153 cases): empty message as only turn / middle turn / first turn / twice at the end x every single-turn "
+    "event x 9 configurations (shipped self check output in general mode, dialog, passthrough, Colang 2.x config / hand-written / llm "
+    "continuation; custom rails only as control); event-started turn as only turn, first turn before user turns, after a predefined "
+    "event-started turn, after an empty-message turn, after a user turn (control) x every single-turn event x 5 configurations (custom "
+    "rails, self check output, multi-step, action flows). Labels turn-kind:empty-user-message:<only-turn|first-turn|middle-turn|last-turn>, "
+    ":llm-message|no-llm-message, empty-user-message-llm-turn:<shipped-self-check-output|custom-rails-only>:v<n>, "
+    "turn-kind:event-started:<before-any-user-turn|after-a-user-turn>, :<UserSilent|custom-event>, :<route>:<llm-message|no-llm-message>, "
+    "event-started-llm-turn:<...>:<position>, flows-started-by-event. "
     "Colang 2.x route par (two LLM "
     "replies said in parallel, hand-written rails) only while PARALLEL_ROUTE is on. Non-trivial = at least 2 turns and a reject or rewrite by an output rail in a turn strictly before the "
     "last turn that generated an LLM message, or a repeated LLM text in a conversation with a reject/rewrite, or a call with the output "
@@ -141,6 +160,8 @@ ASSUMPTIONS = [
     "a bot message text that the LLM writes into its generate_next_steps completion (inline, under the bot step) is LLM text of that turn: the implementation may ignore it (the unchanged tree does: it asks for the message again), no obligation arises unless the text reaches a reply",
     "a custom action that raises is a failure of its turn in the sense of the statement's last sentence: how the faulted turn is answered is C03's subject (here only: it returns no LLM text that did not pass the complete chain, and the refusal of a rejecting rail is not demanded in it); every later turn of the conversation is checked exactly like a turn of a conversation without the failure. The fault is raised by the fake custom action itself (fakes.InjectedFault, a RuntimeError); rail actions and the LLM never fail here",
     "an LLM completion is data: `$name`, `$5` and the like inside it mean nothing to the pipeline (only predefined bot messages are documented as templates over context variables), so the message returned to the caller is, white space aside, character by character the text the output rails released - the rewritten form if a rail rewrote it; context variables are planted by the caller with a `context` role message in front of the Colang 1.0 message history (documented way), never for Colang 2.x",
+    "a user message may be the empty string: the turn is a turn like any other - if the LLM produces a message for it, the text is owed to every configured output rail (the shipped self check output rail renders its prompt with an empty user_input)",
+    "a Colang 1.0 turn may be started by an event message of the caller ({'role': 'event', 'event': {...}}, documented python API) instead of a user message; a flow it drives may utter a bot intent without predefined text, which the LLM writes - LLM text like any other, also when no user turn came before. Generated only where the unchanged tree answers such a call at all: not in passthrough mode (the LLM prompt would be the - missing - user message: generate raises AssertionError) and not in conversations with per-call generation options (there the runtime asks for the user intent of an EARLIER user message again inside the event-started call, for which the scripted LLM has no answer; history handling is not C02's subject); an event-started turn never carries a very long completion (turn key long): when the self check rail fails on it, the Colang 1.0 runtime's failure handling (hide_prev_turn) raises AssertionError from generate if the conversation has no user message yet - failure handling is C03's subject",
     "a turn that needs more than 100 internal events makes the Colang 1.0 runtime raise `Too many events.`; such cases are counted as skipped",
 ]
 
@@ -437,8 +458,52 @@ pipeline.register_extension(EXT_MS_ACT, build_config=_chain(_ms_build_config, _a
 pipeline.register_extension(EXT_PAR_ACT, build_config=_chain(_par_build_config, _act_build_config))
 
 
+# Colang 1.0: flows that are started by an EVENT message of the caller ({"role": "event", "event": {"type": ...}}, documented in
+# docs/user_guides/advanced/event-based-api.md / python-api: the `UserSilent` example) instead of a user utterance; route ->
+# (event the caller sends, kinds of the bot messages of the flow).  The LLM writes the message of a bot intent without predefined text.
+EXT_EV = "c02-ev"
+EV_ROUTES = {
+    "ev_llm": ({"type": "UserSilent"}, ["L"]),
+    "ev_custom": ({"type": "VfTicketUpdated", "ticket": "T-17"}, ["L"]),  # a custom event with a parameter
+    "ev_pl": ({"type": "VfReminderDue"}, ["P", "L"]),
+    "ev_predef": ({"type": "VfSessionPing"}, ["P"]),  # control: the event-started turn says a predefined message only
+}
+_V1_EV = """
+define flow vf user silent
+  event UserSilent
+  bot ask if user is still there
+
+define flow vf ticket updated
+  event VfTicketUpdated
+  bot inform ticket update
+
+define flow vf reminder due
+  event VfReminderDue
+  bot express greeting
+  bot remind user
+
+define flow vf session ping
+  event VfSessionPing
+  bot offer help
+
+"""
+
+
+def _ev_build_config(cfg, colang, yaml_text):
+    if cfg["v"] != 1 or "define flow weather" not in colang:
+        raise RuntimeError("c02: the event-started routes of the extension `ev` need the generated Colang 1.0 dialog")
+    return colang + _V1_EV, yaml_text
+
+
+EXT_MS_EV, EXT_ACT_EV, EXT_MS_ACT_EV = "c02-ms+ev", "c02-act+ev", "c02-ms+act+ev"
+pipeline.register_extension(EXT_EV, build_config=_ev_build_config)
+pipeline.register_extension(EXT_MS_EV, build_config=_chain(_ms_build_config, _ev_build_config))
+pipeline.register_extension(EXT_ACT_EV, build_config=_chain(_act_build_config, _ev_build_config))
+pipeline.register_extension(EXT_MS_ACT_EV, build_config=_chain(_ms_build_config, _act_build_config, _ev_build_config))
+
+
 def _ext_has(cfg, feature):
-    """feature in {"ms", "par", "act"}: is it part of the configuration's extension?"""
+    """feature in {"ms", "par", "act", "ev"}: is it part of the configuration's extension?"""
     ext = cfg.get("ext") or ""
     return ext.startswith("c02-") and feature in ext[4:].split("+")
 
@@ -494,6 +559,8 @@ def _case(draw):
     if act_routes:
         cfg["ext"] = {None: EXT_ACT, EXT_MS: EXT_MS_ACT, EXT_PAR: EXT_PAR_ACT}[cfg.get("ext")]
         routes = tuple(routes) + (("pal", "pal", "pap") if v == 1 else ("pal", "pal", "pap", "lap"))
+    # turns whose user message is the empty string: in a third of the conversations (half with the shipped self check output rail)
+    with_empty = draw(st.sampled_from([False, True] if "self" in cfg["out"] else [False, False, True]))
     # a turn whose custom action raises: in half of the conversations of configurations with a generated dialog
     with_faults = cfg["dialog"] is True and draw(st.booleans())
     # the LLM is asked for the next step(s) on the next_* routes only: more of them where the completion is parsed as a flow
@@ -502,6 +569,15 @@ def _case(draw):
         routes = tuple(routes) + ("next_llm",) * (6 if multi_step else 2) + ("next_predef",) * (2 if multi_step else 1)
     p_long = [False, False, True] if "self" in cfg["out"] else [False] * 11 + [True]
     with_options = v == 1 and draw(st.sampled_from([False, False, True]))
+    # flows started by an event message of the caller (half of the Colang 1.0 configurations with a generated dialog; not in
+    # passthrough mode - there the LLM prompt IS the user message, which an event-started turn does not have - and not in
+    # conversations with per-call generation options, see ASSUMPTIONS)
+    ev_routes = v == 1 and cfg["dialog"] is True and not cfg.get("passthrough") and not with_options and draw(st.booleans())
+    if ev_routes:
+        cfg["ext"] = cfg["ext"] + "+ev" if cfg.get("ext") else EXT_EV
+        routes = tuple(routes) + ("ev_llm", "ev_llm", "ev_custom", "ev_pl", "ev_predef")
+    # the first turn of half of those conversations is started by an event (before any user turn)
+    ev_first = ev_routes and draw(st.booleans())
     can_think = not (v == 2 and cfg["dialog"] == "llmc")
     # completions with `$` tokens: in two fifths of the conversations (not in Colang 2.x flow-continuation completions, where the
     # text is part of a generated flow - C17's subject); in half of those of Colang 1.0 the caller plants context variables
@@ -524,7 +600,7 @@ def _case(draw):
         turns.append(
             {
                 "user": draw(pipeline.st_user_text(t)),
-                "route": draw(st.sampled_from(routes)) if repeat is None else draw(st.sampled_from([turns[repeat]["route"], turns[repeat]["route"], draw(st.sampled_from(routes))])),
+                "route": draw(st.sampled_from(tuple(EV_ROUTES) + ("ev_llm", "ev_custom"))) if t == 0 and ev_first else draw(st.sampled_from(routes)) if repeat is None else draw(st.sampled_from([turns[repeat]["route"], turns[repeat]["route"], draw(st.sampled_from(routes))])),
                 "in": [draw(pipeline.st_verdict(k, p_accept=12)) for k in cfg["in"]],
                 "out": [draw(pipeline.st_verdict(k, p_accept=4)) for k in cfg["out"]],
                 "body": draw(pipeline.st_body()),
@@ -533,6 +609,13 @@ def _case(draw):
         if repeat is not None:
             # the LLM produces, character by character, the message text(s) it produced in turn `repeat` again
             turns[-1]["repeat_llm"] = repeat
+        if turns[-1]["route"] in EV_ROUTES:
+            # turn kind "event-started": the caller sends an event message instead of a user message
+            turns[-1]["user"] = ""
+            turns[-1]["start_event"] = copy.deepcopy(EV_ROUTES[turns[-1]["route"]][0])
+        elif with_empty and draw(st.sampled_from([True, True, False])):
+            # turn kind "empty user message"
+            turns[-1]["user"] = ""
         if with_options:
             # plain call / output rails off for this call / options that leave them on
             opt = draw(st.sampled_from([None, None, None] + OPTS_OFF + OPTS_ON[:4] + [draw(st.sampled_from(OPTS_ON))]))
@@ -547,8 +630,9 @@ def _case(draw):
         if with_faults and turns[-1]["route"] in FAULT_ROUTES and draw(st.sampled_from([True, True, True, False])):
             # the custom action(s) of this turn's flow raise
             turns[-1]["fault"] = "dialog"
-        if draw(st.sampled_from(p_long)):
-            # a very long completion: checked material at its beginning and its end
+        if draw(st.sampled_from(p_long)) and "start_event" not in turns[-1]:
+            # a very long completion: checked material at its beginning and its end (not in an event-started turn: a rail that
+            # fails on the over-long text there makes the Colang 1.0 runtime raise while it hides a turn that has no user message)
             turns[-1]["long"] = {"n": draw(_ST_LONG_N), "place": draw(st.sampled_from(["head", "tail"]))}
         elif with_dollar and draw(st.sampled_from([True, True, False])):
             # the fresh message texts of the turn carry 1-3 `$` tokens (a later turn that repeats the text repeats them)
@@ -613,8 +697,69 @@ def _enumerate_dollar():
             yield case
 
 
+def _turn(t, route, out, user=None):
+    turn = {"user": f"{fakes.mk_user(t)} how is the weather" if user is None else user, "route": route, "in": [], "out": list(out), "body": "some answer"}
+    if route in EV_ROUTES:
+        turn["user"] = ""
+        turn["start_event"] = copy.deepcopy(EV_ROUTES[route][0])
+    return turn
+
+
+def _enumerate_turn_kinds():
+    """Turn kinds next to the ordinary user turn.  (1) EMPTY user message - as the only turn, first, in the middle, twice in a row
+    at the end - for every single-turn event, in configurations with the shipped `self check output` rail (both Colang versions,
+    general mode / dialog / passthrough / llm continuation) and with custom rails only (control).  (2) Colang 1.0: turns STARTED BY AN
+    EVENT message (UserSilent, custom events) whose flow says an LLM-written message: as the only turn, as first turn before ordinary
+    user turns, after a predefined event-started turn, after an empty-message turn, and later in the conversation (control)."""
+    combos = (
+        (1, False, ["self"], False, {}), (1, True, ["check", "self"], True, {}), (1, False, ["self"], False, {"passthrough": True}), (1, True, ["both", "self"], False, {}),
+        (1, False, ["check"], False, {}), (1, True, ["rewrite", "check"], False, {}),
+        (2, False, ["self"], False, {}), (2, True, ["check", "self"], True, {}), (2, "llmc", ["self"], False, {}),
+    )
+    for v, dialog, kinds, exc, extra in combos:
+        cfg = {"v": v, "in": [], "out": kinds, "dialog": dialog, "exc": exc}
+        if v == 2:
+            cfg["style"] = "hand" if dialog is True else "config"
+        else:
+            cfg["ret"] = 0
+        cfg.update(extra)
+        A = ["accept"] * len(kinds)
+        R = A[:-1] + ["reject"]
+        X = ["rewrite"] + A[1:] if kinds[0] in ("both", "rewrite") else (["reject"] + A[1:])
+        r2 = "pl" if dialog is True else "llm"
+        for ev in (R, A) + ((X,) if X != R else ()):
+            yield {"config": cfg, "turns": [_turn(0, "llm", ev, "")], "api": "sync"}
+            yield {"config": cfg, "turns": [_turn(0, "llm", A), _turn(1, "llm", ev, ""), _turn(2, r2, R if ev is A else ev)], "api": "sync"}
+        yield {"config": cfg, "turns": [_turn(0, "llm", R, ""), _turn(1, "llm", A), _turn(2, "llm", R)], "api": "async"}
+        yield {"config": cfg, "turns": [_turn(0, r2, X), _turn(1, "llm", A, ""), _turn(2, "llm", R, "")], "api": "sync"}
+    combos = (
+        (["check"], False, EXT_EV, {}), (["check", "self"], False, EXT_EV, {}), (["both", "check"], True, EXT_MS_EV, {}), (["self"], True, EXT_ACT_EV, {}),
+        (["rewrite", "self"], False, EXT_MS_ACT_EV, {}),
+    )
+    for kinds, exc, ext, extra in combos:
+        cfg = {"v": 1, "in": [], "out": kinds, "dialog": True, "exc": exc, "ret": 0, "ext": ext}
+        cfg.update(extra)
+        A = ["accept"] * len(kinds)
+        R = A[:-1] + ["reject"]
+        X = ["rewrite"] + A[1:] if kinds[0] in ("both", "rewrite") else (["reject"] + A[1:])
+        for ev in (R, A) + ((X,) if X != R else ()):
+            B = R if ev is A else ev
+            for seq in (
+                [("ev_llm", ev)],
+                [("ev_llm", A), ("llm", ev), ("ev_llm", B)],
+                [("ev_custom", ev), ("llm", A), ("pl", B)],
+                [("ev_pl", ev), ("ev_llm", A), ("llm", B)],
+                [("ev_predef", A), ("ev_custom", ev), ("llm", B)],
+                [("llm", A, ""), ("ev_llm", ev), ("act_var", B)],
+                [("llm", A), ("ev_llm", ev), ("ev_pl", B), ("llm", A)],  # control: event-started turns after an ordinary user turn
+            ):
+                yield {"config": cfg, "turns": [_turn(t, *x) for t, x in enumerate(seq)], "api": "sync"}
+
+
 def enumerate_cases(tier):
-    """Deterministic core: 3-turn conversations `ok, X, ok` and `predefined, X, ok` for every single-turn event X."""
+    """Deterministic core: turn kinds (empty user message, event-started turns) first; `$` tokens; then 3-turn conversations
+    `ok, X, ok` and `predefined, X, ok` for every single-turn event X, and the families below."""
+    yield from _enumerate_turn_kinds()
     yield from _enumerate_dollar()
     for v in (1, 2):
         kinds_list = [["check", "self"], ["check", "check"]] if v == 2 else [["check", "both"], ["rewrite", "self"], ["both"]]
@@ -817,7 +962,7 @@ def _first_message_kind(cfg, route):
     """"P" / "L": kind of the first bot message of the flow the route selects (labels only)."""
     if not cfg["dialog"]:
         return "L"
-    kinds = ACT_ROUTES[route][1] if route in ACT_ROUTES else fakes.ROUTES.get(route, (None, ["L"]))[1]
+    kinds = ACT_ROUTES[route][1] if route in ACT_ROUTES else (EV_ROUTES[route][1] if route in EV_ROUTES else fakes.ROUTES.get(route, (None, ["L"]))[1])
     return next((k for k in kinds if k in ("P", "L")), "L")
 
 
@@ -851,6 +996,8 @@ def _check(case, obs):
         labels.append("multi-step-generation")
     if _ext_has(cfg, "act"):
         labels.append("flows-with-action-after-bot-message")
+    if _ext_has(cfg, "ev"):
+        labels.append("flows-started-by-event")
     planted = case.get("context") if v == 1 else None
     if planted:
         labels.append("context-variables-planted-by-caller")
@@ -887,6 +1034,20 @@ def _check(case, obs):
             labels.append("llm-completion-with-think-block" + ("(multi-line)" if "\n" in spec["think"] else ""))
         if spec.get("route") == "par" and cfg["dialog"]:
             labels.append("v2-parallel-llm-replies")
+        # kind of the turn: started by a user message (ordinary / the empty string) or by an event message of the caller
+        pos = "only-turn" if len(case["turns"]) == 1 else ("first-turn" if t == 0 else ("last-turn" if t == len(case["turns"]) - 1 else "middle-turn"))
+        if spec.get("start_event") is not None:
+            first_started = not any(s.get("start_event") is None for s in case["turns"][:t])
+            labels.append("turn-kind:event-started:" + ("before-any-user-turn" if first_started else "after-a-user-turn"))
+            labels.append("turn-kind:event-started:" + ("UserSilent" if spec["start_event"].get("type") == "UserSilent" else "custom-event"))
+            labels.append(f"turn-kind:event-started:{spec.get('route')}:" + ("llm-message" if messages else "no-llm-message"))
+            if messages and not off:
+                labels.append("event-started-llm-turn:" + ("before-any-user-turn" if first_started else "after-a-user-turn") + f":{pos}")
+        elif spec.get("user") == "":
+            labels.append(f"turn-kind:empty-user-message:{pos}")
+            labels.append("turn-kind:empty-user-message:" + ("llm-message" if messages else "no-llm-message"))
+            if messages and not off:
+                labels.append("empty-user-message-llm-turn:" + ("shipped-self-check-output" if "self" in cfg["out"] else "custom-rails-only") + f":v{v}")
         # a custom action of the turn's flow raised (trace evidence): nothing is asserted about how such a turn is answered, only
         # that it returns no unchecked / rejected LLM text - the turns after it are judged as ever
         faulted = any(e["cat"] == "dialog" and e.get("verdict") == "raise" for e in o["trace"])
